@@ -24,6 +24,7 @@ import (
 	"github.com/ErdemOzgen/blackdagger/internal/persistence/jsondb"
 	"github.com/ErdemOzgen/blackdagger/internal/sock"
 	"github.com/ErdemOzgen/blackdagger/verifh/core"
+	"github.com/ErdemOzgen/blackdagger/verifh/pgrp"
 	"github.com/ErdemOzgen/blackdagger/verifh/gate"
 	"github.com/anishathalye/porcupine"
 )
@@ -306,6 +307,8 @@ func c16Trial(c *core.Ctx, idx int, self string, vi int, p2kind string, nsteps i
 		c.Inconclusive("c16: cannot start P2: " + err.Error())
 		return
 	}
+	p2grp := pgrp.Open(p2.Process.Pid)
+	defer p2grp.Close()
 	p2done := make(chan struct{})
 	go func() { _ = p2.Wait(); close(p2done) }()
 	// wait until P2 began a step or ended
@@ -349,14 +352,14 @@ wait:
 		p1exit, p1out, to = p1.Wait(120 * time.Second)
 		if to {
 			c.Violate(idx, "p1-hung|"+label, "the first run did not end within 120 s after a second start had been issued while it was held before call "+label, desc)
-			_ = syscall.Kill(-p2.Process.Pid, syscall.SIGKILL)
+			p2grp.Kill()
 			return
 		}
 	}
 	select {
 	case <-p2done:
 	case <-time.After(120 * time.Second):
-		_ = syscall.Kill(-p2.Process.Pid, syscall.SIGKILL)
+		p2grp.Kill()
 		<-p2done
 		c.Violate(idx, "p2-hung|"+label, "the second start did not end within 120 s", desc)
 		return
